@@ -52,6 +52,8 @@ def kind_of(x):
         return "complex"
     if isinstance(x, (cx.SInt,)):
         return "int"
+    if isinstance(x, cx.SVal):
+        return "real"
     import numpy as _n
     if isinstance(x, (_n.ndarray, _n.generic)):
         return {"b": "bool", "i": "int", "u": "int", "f": "real", "c": "complex"}.get(_n.asarray(x).dtype.kind, "real")
@@ -166,6 +168,10 @@ class SArr:
         out.extend(self.shape[pos:])
         return SArr(tuple(out), self.kind)
 
+    def __setitem__(self, idx, v):
+        """values are not tracked: an item assignment keeps shape and kind (NumPy's own acceptance of the index / broadcast is not modelled)"""
+        return None
+
     def reshape(self, *shape, **kw):
         if _METHODS.get("reshape") is None:
             raise shadow.NotModelled("ndarray.reshape")
@@ -224,6 +230,27 @@ class ShapeVec(list):
         else:
             list.__setitem__(self, i, v)
 
+    __array_ufunc__ = None      # NumPy defers to the reflected methods below
+
+    def _zip(self, o):
+        import numpy as _n
+        if isinstance(o, (list, tuple, _n.ndarray)):
+            if len(o) != len(self):
+                raise ValueError("shape vectors of different length")
+            return [(d, int(e) if type(e).__module__ == "numpy" else e) for d, e in zip(self, o)]
+        return [(d, o) for d in self]
+
+    def __sub__(self, o):
+        return ShapeVec([a - b for a, b in self._zip(o)])
+
+    def __rsub__(self, o):
+        return ShapeVec([b - a for a, b in self._zip(o)])
+
+    def __add__(self, o):
+        if isinstance(o, (list, tuple)) and not isinstance(o, ShapeVec):
+            return ShapeVec(list(self) + list(o))      # list concatenation (what `list(shape) + [n]` means)
+        return ShapeVec([a + b for a, b in self._zip(o)])
+
     def __eq__(self, o):
         return [d == (o[i] if isinstance(o, (list, tuple)) else o) for i, d in enumerate(self)]
 
@@ -262,6 +289,71 @@ def size_term(shape):
 
 class Requires(Exception):
     pass
+
+
+def fft_impls():
+    """NumPy shape contracts of numpy.fft (assumed; audited against NumPy on concrete sizes by contracts/rules_shape.audit_fft)."""
+    def _rep(sh, axes, s_):
+        sh = list(sh)
+        nd = len(sh)
+        for j, ax in enumerate(axes):
+            if ax < -nd or ax >= nd:
+                raise ValueError("axis out of range")
+            if s_ is not None and s_[j] is not None:
+                sh[ax % nd] = s_[j]
+        return sh
+
+    def _axes(a, s_, axes, default_last=None):
+        nd = len(shape_of(a))
+        if axes is None:
+            if default_last is not None:
+                axes = default_last
+            elif s_ is not None:
+                axes = list(range(nd - len(s_), nd))
+            else:
+                axes = list(range(nd))
+        return [int(x) for x in axes]
+
+    def c1(a, n=None, axis=-1, norm=None, out=None):
+        return SArr(tuple(_rep(shape_of(a), [axis], None if n is None else [n])), "complex")
+
+    def cn(default_last):
+        def f(a, s=None, axes=None, norm=None, out=None):
+            ax = _axes(a, s, axes if axes is not None else default_last)
+            return SArr(tuple(_rep(shape_of(a), ax, s)), "complex")
+        return f
+
+    def half(n):
+        return n // 2 + 1
+
+    def r1(a, n=None, axis=-1, norm=None, out=None):
+        sh = shape_of(a)
+        m = sh[axis] if n is None else n
+        return SArr(tuple(_rep(sh, [axis], [half(m)])), "complex")
+
+    def ir1(a, n=None, axis=-1, norm=None, out=None):
+        sh = shape_of(a)
+        m = 2 * (sh[axis] - 1) if n is None else n
+        return SArr(tuple(_rep(sh, [axis], [m])), "real")
+
+    def rn(default_last):
+        def f(a, s=None, axes=None, norm=None, out=None):
+            ax = _axes(a, s, axes if axes is not None else default_last)
+            sh = _rep(shape_of(a), ax, s)
+            sh[ax[-1] % len(sh)] = half(sh[ax[-1] % len(sh)])
+            return SArr(tuple(sh), "complex")
+        return f
+
+    def irn(default_last):
+        def f(a, s=None, axes=None, norm=None, out=None):
+            ax = _axes(a, s, axes if axes is not None else default_last)
+            sh0 = list(shape_of(a))
+            s2 = list(s) if s is not None else [sh0[x] for x in ax[:-1]] + [2 * (sh0[ax[-1]] - 1)]
+            return SArr(tuple(_rep(sh0, ax, s2)), "real")
+        return f
+    same_ = lambda x, axes=None: SArr(shape_of(x), kind_of(x))
+    return dict(fft=c1, ifft=c1, fft2=cn((-2, -1)), ifft2=cn((-2, -1)), fftn=cn(None), ifftn=cn(None), rfft=r1, irfft=ir1, rfft2=rn((-2, -1)), irfft2=irn((-2, -1)),
+                rfftn=rn(None), irfftn=irn(None), fftshift=same_, ifftshift=same_)
 
 
 def linalg_impls():
@@ -525,14 +617,29 @@ def make_namespaces(oblig):
             return outs[0] if len(outs) == 1 else outs
         return f
 
-    binary = lambda x, y, *a, **k: SArr(bshape(shape_of(x), shape_of(y)), promote("real", kind_of(x), kind_of(y)))
+    _binary = lambda x, y, *a, **k: SArr(bshape(shape_of(x), shape_of(y)), promote("real", kind_of(x), kind_of(y)))
+
+    def a_maximum(x, y, *a, **k):
+        # integer vectors of sizes (onp.maximum(0, wanted - have)): element-wise symbolic maximum
+        if isinstance(x, ShapeVec) or isinstance(y, ShapeVec):
+            v, c = (x, y) if isinstance(x, ShapeVec) else (y, x)
+            out = ShapeVec()
+            for d, e in v._zip(c):
+                if isinstance(d, cx.SInt) or isinstance(e, cx.SInt):
+                    td, te = dim_term(d), dim_term(e)
+                    out.append(cx.SInt(z3.simplify(z3.If(td >= te, td, te))))
+                else:
+                    out.append(max(d, e))
+            return out
+        return _binary(x, y)
+    binary = _binary
     cmp_ = lambda x, y, *a, **k: SArr(bshape(shape_of(x), shape_of(y)), "bool")
     impls = dict(ndim=lambda x: len(shape_of(x)), shape=lambda x: shape_of(x), iscomplexobj=lambda x: kind_of(x) == "complex", isscalar=lambda x: isinstance(x, (int, float, complex, cx.SInt)),
                  result_type=lambda *xs: DT(promote(*[kind_of(x) for x in xs])), metadata=lambda x: (shape_of(x), len(shape_of(x)), DT(kind_of(x)), kind_of(x) == "complex"),
                  sum=a_sum, mean=a_mean, prod=a_prod, repeat=a_repeat, size=lambda x: prod(shape_of(x)), array=lambda v, *a, **k: ShapeVec(v) if isinstance(v, (list, tuple)) else v, max=a_sum, min=a_sum, amax=a_sum, amin=a_sum, var=a_mean, std=a_mean, reshape=a_reshape, where=a_where, real=a_real,
                  imag=a_real, zeros=a_zeros, ones=a_zeros, expand_dims=a_expand_dims, broadcast_to=a_broadcast_to, conj=same, conjugate=same, sign=same, floor=same,
                  negative=same, abs=a_real, absolute=a_real, isfinite=lambda x: SArr(shape_of(x), "bool"), logical_and=cmp_, equal=cmp_,
-                 maximum=binary, minimum=binary, add=binary, subtract=binary, multiply=binary, divide=binary, true_divide=binary, power=binary, arctan2=binary, hypot=binary,
+                 maximum=a_maximum, minimum=binary, add=binary, subtract=binary, multiply=binary, divide=binary, true_divide=binary, power=binary, arctan2=binary, hypot=binary,
                  logaddexp=binary, logaddexp2=binary, mod=binary, remainder=binary, fmax=binary, fmin=binary)
     for u in ("exp", "log", "sin", "cos", "tan", "sinh", "cosh", "tanh", "sqrt", "arcsin", "arccos", "arctan", "arcsinh", "arccosh", "arctanh", "log2", "log10", "log1p", "expm1", "exp2",
               "square", "reciprocal", "sinc", "deg2rad", "rad2deg", "degrees", "radians"):
